@@ -228,6 +228,9 @@ pub fn trace_case(f: impl FnOnce() -> Value) {
 }
 
 pub fn silence_panics() {
+    if std::env::var("CVX_LOUD").is_ok() {
+        return;
+    }
     std::panic::set_hook(Box::new(|_| {}));
 }
 
